@@ -902,3 +902,103 @@ def q_c13_head_update(bodies):
 
 
 QUERIES["C13"] = [q_c13_head_update]
+
+
+# ------------------------------------------------------------------------------------------------
+# generic: reachability of a coroutine's final return with a tracked Boolean fact
+# ------------------------------------------------------------------------------------------------
+
+def coroutine_reach(body, sets, clears, init, goal_value):
+    """Is the final `return` (coroutine discriminant := 1) of an async body reachable with the tracked
+    fact == goal_value?  `sets(bn, stmts)` / `clears(bn, stmts)` say whether a block sets / clears the
+    fact.  Branch conditions are free; suspension points continue at their resume block.  Encoded
+    as the non-existence of an inductive invariant (propositional; exact for this abstraction).
+    Returns (reachable: True/False/None, stats)."""
+    import re as _re
+    resume, final_blocks, suspend = {}, [], {}
+    bb0 = body.blocks["bb0"][-1]
+    for k, tgt in _re.findall(r"(\d+): (bb\d+)", bb0):
+        resume[int(k)] = tgt
+    effect = {}
+    for bn, b in body.blocks.items():
+        eff = None
+        if sets(bn, b):
+            eff = True
+        if clears(bn, b):
+            eff = False
+        effect[bn] = eff
+        for st in b:
+            m = _re.match(r"^discriminant\(\(\*_\d+\)\) = (\d+);$", st)
+            if m and b[-1].startswith("return"):
+                k = int(m.group(1))
+                if k == 1:
+                    final_blocks.append(bn)
+                elif k >= 3:
+                    suspend[bn] = k
+    if not final_blocks:
+        return None, {"error": "no final return found"}
+    edges = []
+    for bn in body.blocks:
+        if bn in suspend:
+            edges.append((bn, resume.get(suspend[bn])))
+            continue
+        for s2 in body.successors(bn):
+            if s2 in body.blocks:
+                edges.append((bn, s2))
+    L = ["(set-logic QF_UF)"]
+    nm = {}
+    for bn in body.blocks:
+        for f in ("T", "F"):
+            nm[(bn, f)] = "inv_%s_%s" % (bn, f)
+            L.append("(declare-const %s Bool)" % nm[(bn, f)])
+
+    def post(bn, f):
+        e = effect[bn]
+        return f if e is None else ("T" if e else "F")
+
+    start = resume.get(0, "bb1")
+    L.append("(assert %s)" % nm[(start, "T" if init else "F")])
+    for (a2, b2) in edges:
+        if b2 is None:
+            continue
+        for f in ("T", "F"):
+            L.append("(assert (=> %s %s))" % (nm[(a2, f)], nm[(b2, post(a2, f))]))
+    g = "T" if goal_value else "F"
+    for fb in final_blocks:
+        for f in ("T", "F"):
+            if post(fb, f) == g:
+                L.append("(assert (not %s))" % nm[(fb, f)])
+    L.append("(check-sat)")
+    verdict, _ = solve("\n".join(L), timeout=120)
+    reach = {"unsat": True, "sat": False}.get(verdict)
+    return reach, {"blocks": len(body.blocks), "edges": len(edges), "set_sites": sum(1 for e in effect.values() if e is True),
+                   "clear_sites": sum(1 for e in effect.values() if e is False), "final": len(final_blocks)}
+
+
+def q_c11_connect_glue(bodies):
+    """C11 glue: `LiveActor::on_sync_via_connect_finished` (async).  Every way a dial can end must
+    either hand the result to `on_sync_finished` (which calls `state.finish`) or free the slot with
+    `state.abort_connect` — otherwise the dialer stays marked busy for ever.  Decided as reachability
+    over the real MIR block graph: can the handler return without having called one of the two?
+    (The Kani scenario harnesses mirror exactly this glue in `dial_ends`.)"""
+    name = "c11_connect_glue"
+    hits = find_body(bodies, r"on_sync_via_connect_finished::\{closure#0\}::\{closure#0\}$", r"Poll<\(\)>")
+    if len(hits) != 1:
+        return dict(name=name, property="C11", verdict="inconclusive", detail="handler body not found uniquely (%d)" % len(hits), functions=[])
+    body = hits[0]
+    import re as _re
+    CALL = _re.compile(r"^_\d+ = (NamespaceStates::abort_connect|LiveActor::on_sync_finished|NamespaceStates::finish)\(")
+    sets = lambda bn, b: any(CALL.match(st) for st in b)  # noqa
+    reach, stats = coroutine_reach(body, sets, lambda bn, b: False, init=False, goal_value=False)
+    if reach is None:
+        return dict(name=name, property="C11", verdict="inconclusive", detail="solver/structure: %s" % stats, functions=[body.name])
+    if stats["set_sites"] == 0:
+        return dict(name=name, property="C11", verdict="violated", detail="the handler never finishes or frees the sync state: %s" % stats, functions=[body.name],
+                    queries=1, cases=1, witness=None, check_message="a finished, failed or declined dial always finishes or frees the dialer's sync state")
+    return dict(name=name, property="C11", verdict="violated" if reach else "holds",
+                detail="return reachable without finish/abort_connect: %s; %s" % (reach, stats), functions=[body.name], queries=1,
+                cases=stats["set_sites"] + stats["final"], witness=None,
+                check_message="a finished, failed or declined dial always finishes or frees the dialer's sync state")
+
+
+QUERIES["C11"] = [q_c11_connect_glue]
